@@ -278,6 +278,12 @@ func (pgi *PodGroupInfo) deleteTaskIndex(ti *pod_info.PodInfo) {
 	}
 }
 
+// InvalidateTasksCache drops the memoized tasks to allocate. It is for changes of a task that decide
+// whether the task is to be allocated but do not go through UpdateTaskStatus (IsVirtualStatus).
+func (pgi *PodGroupInfo) InvalidateTasksCache() {
+	pgi.invalidateTasksCache()
+}
+
 func (pgi *PodGroupInfo) invalidateTasksCache() {
 	pgi.tasksToAllocate = nil
 	pgi.tasksToAllocateInitResource = nil
